@@ -4,5 +4,9 @@ using namespace mfuse;
 
 MFUS_CLASS_DECLARATION(Listener, Game, NULL)
 {
+    // owned by the script context, not allocated on its own: scripts must not destroy it
+    { &EV_Delete,            NULL },
+    { &EV_Remove,            NULL },
+    { &EV_ScriptRemove,        NULL },
     { NULL, NULL }
 };
